@@ -1,14 +1,12 @@
 package c02
 
 import (
-	"encoding/json"
 	"fmt"
-	"os"
-	"path/filepath"
 	"strings"
 	"unicode/utf8"
 
 	"verifharness/internal/core"
+	"verifharness/internal/drv"
 	"verifharness/internal/probe"
 	"verifharness/internal/rng"
 	"verifharness/internal/tgen"
@@ -266,30 +264,11 @@ func illFormedBytes(s string) int {
 // The body of a script template and the constant property values of a css template are static text of the template as well;
 // the generator hands them to the Go file inside a backtick string (createGoString), not through escapeQuotes.  Judged by
 // an oracle that needs no model: the ill-formed word written in the source must stand in the rendered document, byte for
-// byte, inside the <script> / <style> element the component renders.
+// byte, inside the <script> / <style> element the component renders.  (Found on 906dd9d: createGoString spelled such text as a
+// raw string and RangeWriter re-encoded every ill-formed byte as U+FFFD; fixed by 44f6429, which writes it with strconv.Quote.
+// A re-introduction is reported with the shape below.)  The generator model's createGoString (model/Gen.v: go_string) is tied
+// on the same file: Gen.v's text = generator.Generate's text, byte for byte.
 const rawDeclShape = "script-or-css-template-ill-formed-byte-rendered-as-U+FFFD"
-
-// findingRegistered: whether known_findings.json lists the shape for C02.  On the tree as it is the probe below finds a
-// genuine deviation (reported to the coordinator); it goes through c.Fail with its shape once the finding is registered, and
-// is only recorded in the evidence distribution until then - a check may not raise an unregistered alarm on the unchanged tree.
-func findingRegistered(shape string) bool {
-	b, err := os.ReadFile(filepath.Join(core.Root, "known_findings.json"))
-	if err != nil {
-		return false
-	}
-	var doc struct {
-		Findings []struct{ Property, Status, Shape string } `json:"findings"`
-	}
-	if json.Unmarshal(b, &doc) != nil {
-		return false
-	}
-	for _, f := range doc.Findings {
-		if f.Property == "C02" && f.Status == "known" && f.Shape == shape {
-			return true
-		}
-	}
-	return false
-}
 
 func rawDeclFamily(c *core.Ctx) {
 	n := c.N(4, 24)
@@ -328,20 +307,31 @@ func rawDeclFamily(c *core.Ctx) {
 		c.Oblige("correspondence", "script/css templates in a non-UTF-8 file: probe program runs", false, err.Error())
 		return
 	}
-	registered := findingRegistered(rawDeclShape)
+	// the whole-generator model on this file (ill-formed bytes only in script bodies and css values: go_string)
+	tieOK := true
+	if m := c.Model([]drv.Req{{Fn: "gen", Args: [][]byte{[]byte("NDECL.templ"), []byte(f.Enc)}}}); len(m) != 1 || len(m[0]) < 2 || string(m[0][0]) != "ok" || string(m[0][1]) != f.Code {
+		tieOK = false
+		got := "(no reply)"
+		if len(m) == 1 && len(m[0]) >= 2 {
+			got = string(m[0][1])
+		}
+		c.Fail("tie", "script/css templates in a non-UTF-8 file: model/Gen.v text = generator.Generate text", "", exact(map[string]any{"source": src, "diff": firstDiff(got, f.Code)}),
+			"the generator model writes other Go text than the real generator for script / css templates whose text is not valid UTF-8 (createGoString)")
+	}
+	c.Oblige("correspondence", "script/css templates in a non-UTF-8 file: model/Gen.v (go_string) = generator.Generate text, byte for byte", tieOK, "")
+	ok := true
 	for k, doc := range res {
 		c.Count(fmt.Sprintf("rawdecl/%d/%q", k, words[k]))
 		inScript := strings.Contains(doc, "console.log(\"un "+words[k]+" \"")
 		inStyle := strings.Contains(doc, "font-family:\"un "+words[k]+"\"")
-		switch {
-		case inScript && inStyle:
+		if inScript && inStyle {
 			c.Hist("script/css template in a non-UTF-8 file: source bytes rendered as they stand")
-		case registered:
+		} else {
+			ok = false
 			c.Fail("property", "script/css templates in a non-UTF-8 file: the body / constant value is rendered byte for byte", rawDeclShape,
 				exact(map[string]any{"template": pc[k].Template, "args": pc[k].Args, "source": src, "impl": doc, "ill_formed_word": words[k], "found_in_script": inScript, "found_in_style": inStyle}),
 				"the rendered <script> / <style> text does not hold the bytes of the script template body / css template value of the source")
-		default:
-			c.Hist("script/css template in a non-UTF-8 file: ill-formed bytes rendered as U+FFFD (genuine finding reported; shape " + rawDeclShape + " not yet in known_findings.json)")
 		}
 	}
+	c.Oblige("correspondence", "script/css templates in a non-UTF-8 file: body and constant values stand in the rendered document byte for byte", ok, "")
 }
